@@ -67,9 +67,9 @@ def _check(prop, tier, seed, replay, work, t0):
             states += r["distinct"]
             trans += r["generated"]
             druns.append({"spec": "BisyncFrontier", "N": cfg[0], "Lanes": cfg[1], "MaxCrashes": cfg[2], "distinct": r["distinct"]})
-        n, units, stride = (96, 6, 2) if tier == "quick" else (800, 9, 1)
+        n, units, stride = (96, 6, 2) if tier == "quick" else (400, 9, 1)
         drive(drv, work, "standalone", ["-seed", str(seed), "-n", str(n), "-max-units", str(units), "-crash-stride", str(stride)], stats)
-        n, units, stride = (32, 6, 2) if tier == "quick" else (320, 8, 1)
+        n, units, stride = (32, 6, 2) if tier == "quick" else (160, 8, 1)
         drive(drv, work, "cluster", ["-cluster", "-id-base", "1000000", "-seed", str(seed), "-n", str(n), "-max-units", str(units), "-crash-stride", str(stride)], stats)
         expl = ("streams of <= %d units (single commands and transactions) x 3 modes on a standalone fake and on a two-node cluster fake "
                 "(hash-tagged keys over several slots, delayed EXEC replies on one node so that lanes complete out of order), crash after every "
